@@ -41,7 +41,7 @@ type Frame struct {
 	namedVals map[string]ssa.Value
 	params  map[string]SV
 	depth   int
-	curLoopPhi map[string]ssa.Value
+	curHead *ssa.BasicBlock
 }
 
 type loopInfo struct {
@@ -51,6 +51,7 @@ type loopInfo struct {
 	ordinal int
 	// recorded at head for the back-edge check
 	headPC  string
+	autoSpec *LoopSpec
 	decEntry string
 }
 
